@@ -280,10 +280,11 @@ def build(named: bool = True, objective: bool = True) -> Model:
     g6p = Met("g6p_c", formula="C6H11O9P", name="Glucose 6-phosphate", charge=-2, compartment="c")
     h = Met("h_c", formula="H", name="", charge=0.5, compartment="c")
     x = Met("x_c", compartment="c")
+    nowhere = Met("y")   # a metabolite as the constructor leaves it: no compartment
     g6p.notes = {"curated": True, "refs": ["PMID:1", "PMID:2"]}
     g6p.annotation = {"chebi": ["CHEBI:4170", "CHEBI:10"], "kegg.compound": "C00092"}
     glc.annotation = {"sbo": "SBO:0000247"}
-    m.add_metabolites([g6p, glc, h, x])      # deliberately not in id order
+    m.add_metabolites([g6p, glc, h, x, nowhere])      # deliberately not in id order
     g1, g2 = Gene("b0002", name="thrA"), Gene("b0001")
     g1.annotation = {"ncbigene": ["945803"]}
     g2.notes = {"n": 1}
@@ -295,7 +296,7 @@ def build(named: bool = True, objective: bool = True) -> Model:
         ("HEX", "", {g6p: -1.0, h: 2.0, x: -0.5}, (0.0, 1000.0), "", "", 0),
         ("BACK", "runs backwards only", {x: 1.0}, (-5.0, 0.0), "b0002", "", -0.5),
         ("FORCED", "forced high", {h: -1.0}, (2000.0, 3000.0), "b0001 or b0002", "Other", 0),
-        ("FIXED0", "closed", {x: -1.0, h: 1.0}, (0.0, 0.0), "", "", 0),
+        ("FIXED0", "closed", {x: -1.0, h: 1.0, nowhere: 1.0}, (0.0, 0.0), "", "", 0),
         ("UP", "only upper open", {glc: 1.0}, (0.0, INF), "", "", 0),
         ("DOWN", "only lower open", {glc: -1.0}, (-INF, 0.0), "", "", 0),
         ("HALF", "lower open, upper finite", {h: 1.0}, (-INF, 12.5), "", "", 0),
@@ -408,6 +409,7 @@ def check_roundtrip(ctx, rule: str) -> None:
             raise AnalysisError(f"{rule}: {what} cannot be evaluated: {exc}")
 
     problems: List[str] = []
+    aspects: Dict[str, str] = {}
     n_sc = 0
     for named, objective in ((True, True), (False, True), (True, False)):
         for sort in (False, True):
@@ -438,8 +440,16 @@ def check_roundtrip(ctx, rule: str) -> None:
             want, have = say(m, sort), say(m2, False)
             diff = [k for k in want if want[k] != have.get(k)] + [k for k in have if k not in want]
             if diff:
-                k = diff[0]
-                problems.append(f"after dict round trip of {what}, {k} is {have.get(k)!r}; it was {want.get(k)!r}" + (f" (+{len(diff) - 1} more differences)" if len(diff) > 1 else ""))
+                # one report per aspect (kind of object . attribute: old -> new), so that a listed finding about one
+                # attribute does not hide a different one
+                for k in diff:
+                    w_, h_ = want.get(k), have.get(k)
+                    kind = k.split(" ")[0]
+                    if isinstance(w_, dict) and isinstance(h_, dict) and " " in k:
+                        for attr in [a for a in w_ if w_[a] != h_.get(a)] + [a for a in h_ if a not in w_]:
+                            aspects.setdefault(f"{kind}.{attr}: {w_.get(attr)!r} -> {h_.get(attr)!r}", f"after dict round trip of {what}, {attr} of {k} is {h_.get(attr)!r}; it was {w_.get(attr)!r}")
+                    else:
+                        aspects.setdefault(f"{k}: {w_!r} -> {h_!r}"[:120], f"after dict round trip of {what}, {k} is {h_!r}; it was {w_!r}")
                 continue
             again = run("second model_to_dict", to_d, [m2], {"sort": sort})
             if again[0] != "value" or _through_json(again[1]) != pristine:
@@ -477,9 +487,11 @@ def check_roundtrip(ctx, rule: str) -> None:
                 if shared:
                     problems.append(f"loaded objects share a mutable container: {shared} - one object handed out by reference to several owners (a module-level default, a cache); editing one object's {attr} edits the others ({what})")
             n_sc += 1
+    for aspect, text in list(aspects.items())[:8]:
+        ctx.bad(rule, from_d, f"dict round trip: {aspect}", text)
     if problems:
         ctx.bad(rule, from_d if any("model_from_dict" in p or "round trip" in p for p in problems[:1]) else to_d, "dict round trip", problems[0] + (f" (+{len(problems) - 1} more)" if len(problems) > 1 else ""))
-    else:
+    elif not aspects:
         ctx.ok(rule, to_d, "dict round trip", f"{n_sc} scenarios (named/unnamed, sort on/off): the dict is JSON-representable, loading leaves it unchanged, the loaded model says what the saved one said (infinite / zero / above-default bounds, charge 0, objective coefficients of both signs, nested notes and annotations, list order), a second round trip reproduces the dict (evaluated)")
 
 
